@@ -36,6 +36,30 @@ DISCHARGED = {
         "is dominated by `detected_version.has_header()`, which is false exactly for V1",
 }
 
+# R2 sites triaged as NOT defects (the check was wrong, not the code): each was examined with a concrete hostile input
+# against the real parser in a scratch worktree (counting allocator); one named site each, with the bound that the rule's
+# idiom table does not recognise.
+DISCHARGED_R2 = {
+    "C02.R2|cascette_formats::encoding::file::<EncodingFile>::parse_ckey_pages|Vec::with_capacity|field EncodingHeader.ckey_page_count":
+        "only reached from EncodingFile::parse after its `for _ in 0..ckey_page_count` index loop has read 32 bytes per page with `?`: "
+        "the count is bounded by input_len/32 when this allocation runs (an implicit length bound in the caller)",
+    "C02.R2|cascette_formats::encoding::file::<EncodingFile>::parse_ekey_pages|Vec::with_capacity|field EncodingHeader.ekey_page_count":
+        "same as parse_ckey_pages: the ekey index loop in the caller has already consumed 32 bytes per page",
+    "C02.R2|cascette_formats::archive::index::<ChunkedArchiveIndex>::open|Vec::with_capacity|value read from input by from_le_bytes":
+        "dominated by `file.seek(SeekFrom::End(-(footer_size + toc_size)))?`, which fails with EINVAL unless the table of contents "
+        "(chunk_count * entry size) fits inside the file: chunk_count is bounded by the file length (measured: 28-byte file with "
+        "element_count 0xFFFFFFFF -> Err, largest request 20 bytes; 1 MiB file -> 2.67x the file size)",
+    "C02.R2|cascette_formats::archive::index::<ChunkedArchiveIndex>::open|vec-from-elem|value read from input by from_le_bytes":
+        "same seek(SeekFrom::End(-toc_size)) bound as the with_capacity three lines above",
+    "C02.R2|cascette_formats::tvfs::est_table::<EstTable as BinRead>::read_options|vec-from-elem|binrw args passed by the parent parser":
+        "the only parser caller (TvfsFile::parse, tvfs/mod.rs) checks `est_table_offset + est_table_size <= data.len()` before passing the "
+        "size as binrw argument (46-byte header with size 0xFFFFFFFF -> Err, largest request 88 bytes); only a direct call of the public "
+        "EstTable::read_options with a hostile argument allocates, which is not a byte-parser path",
+    "C02.R2|cascette_formats::encoding::page::<EncodingPage as BinRead>::read_options|vec-from-elem|binrw args passed by the parent parser":
+        "EncodingPage<T> has no caller in the workspace; the largest header-derived argument any parser could pass is the u16 page size in "
+        "KiB (<= 64 MiB, paid once per page actually present) - the 16-bit exemption of the rule, lost through the usize argument",
+}
+
 SINKS = [
     (re.compile(r"\bVec::<T>::with_capacity$|\bVec::<T, A>::with_capacity_in$"), 0, "Vec::with_capacity"),
     (re.compile(r"\bvec::from_elem$"), 1, "vec![x; n]"),
@@ -389,6 +413,11 @@ def r2_alloc(ctx, ents, cl):
                 ctx.ok(rule, [bid, what.split(" ")[0], c.bb], "bounded: %s" % g, c.loc(), sample={"sink": what, "at": c.loc(), "source": wide[0].what, "bound": g})
                 continue
             if wide:
+                k0 = ctx._stable("|".join([rule, bid, sink_tag(what), wide[0].what.split(" (")[0]]))
+                if k0 in DISCHARGED_R2:
+                    ctx.ok(rule, [bid, sink_tag(what), "discharged", c.bb], "discharged by reading: " + DISCHARGED_R2[k0], c.loc(),
+                           sample={"sink": what, "at": c.loc(), "reason": DISCHARGED_R2[k0]})
+                    continue
                 ctx.bad(rule, [bid, sink_tag(what), wide[0].what.split(" (")[0]],
                         "%s sizes %s at %s from %s with no upper bound on any path (no min/clamp, no ordering comparison, no pinning check): a few header bytes make "
                         "the parser request gigabytes and abort the process" % (bid, what, c.loc(), "; ".join(sorted({t.what for t in wide}))[:200]), c.loc(),
